@@ -90,10 +90,6 @@ theorem resp_413_if_early (gzLen : Body → Nat) (l : Lim) (c : Chunk)
     ∀ c', ((l.step gzLen (.w c)).2.step gzLen (.w c')).1 = [] := by
   simp [Lim.step, hw, hr, hover, opLen]
 
-/-- body operations of a response: writes and flushes -/
-def bodyOnly (ops : List Op) : Prop := ∀ o ∈ ops, (∃ c, o = .w c) ∨ o = .fl
-
-def headerOnly (ops : List Op) : Prop := ∀ o ∈ ops, o.isHeaderOp = true
 
 theorem trans_headers (gzLen : Body → Nat) (hs : List Op) (hh : headerOnly hs) (rest : List Op) : ∀ (l : Lim),
     transLim gzLen l (hs ++ rest) = (hs ++ (transLim gzLen l rest).1, (transLim gzLen l rest).2) := by
